@@ -466,7 +466,7 @@ Fixpoint deser_scalar (c : cfg) (t : target) (ev : scalar_ev) : sres :=
   | TgUnit => if scalar_is_nullish value st then RUnit else RErr E_UnexpectedValueForUnit
   | TgOption t' =>
     if tag =? TAG_Null then RNone
-    else if negb (tag =? TAG_String) && scalar_is_nullish_for_option value st then RNone
+    else if negb (tag =? TAG_String) && negb (tag =? TAG_Binary) && scalar_is_nullish_for_option value st then RNone
     else match deser_scalar c t' ev with
          | RErr e => RErr e
          | r => RSome r
